@@ -306,6 +306,16 @@ def weave_item(hdr, subs, stats):
             pos = i + len(new)
         log.append({"rule": d["rule"], "before": old, "after": new, "count": n})
     for d in subs:
+        if d["op"] == "receiver":
+            tk = tokenize(ot.s)
+            fi = next(i for i, t in enumerate(tk) if t.kind == "id" and t.text == "fn")
+            po = next(i for i in range(fi, len(tk)) if tk[i].text == "(")
+            if tk[po + 1].text != "self":
+                raise WeaveError(f"{what}: receiver rewrite expects a by-value `self` receiver")
+            ot.replace(tk[po + 1].start, tk[po + 1].end, d["text"])
+            log.append({"rule": "R12 receiver: method of `impl Trait for &mut Deserializer` checked as inherent method",
+                        "before": "self", "after": d["text"]})
+    for d in subs:
         if d["op"] == "replaceblock":
             tk = tokenize(ot.s)
             a, b = _tok_find(tk, d["anchor"], d["nth"], what)
@@ -727,6 +737,8 @@ def parse_template(path, seen=None):
                         d["count"] = int(mm.group(2)) if mm.group(2) else ("all" if mm.group(3) else 1)
                         subs.append(d)
                         i += 2
+                    elif op == "receiver":
+                        subs.append({"op": "receiver", "text": rest.strip()})
                     elif op == "truncate":
                         subs.append({"op": "truncate", "types": rest.split()})
                     elif op in ("ret", "rename"):
